@@ -186,6 +186,9 @@ type multipartResponseAggregator struct {
 	initialResponse *graphql.Response
 	deferResponses  []*graphql.Response
 	done            chan bool
+	// flushPanic holds what a flush on the ticker goroutine panicked with (a payload that cannot
+	// be encoded); Done re-raises it on the handler's goroutine, where it can be recovered
+	flushPanic any
 }
 
 // newMultipartResponseAggregator creates a new multipartResponseAggregator
@@ -208,16 +211,39 @@ func newMultipartResponseAggregator(
 			case <-a.done:
 				return
 			case <-ticker.C:
-				a.flush(w)
+				a.tickFlush(w)
 			}
 		}
 	}()
 	return a
 }
 
+// tickFlush is flush on the ticker goroutine: nothing up the stack would recover a panic there
+// (the process would exit), so it is kept for Done.
+func (a *multipartResponseAggregator) tickFlush(w http.ResponseWriter) {
+	defer func() {
+		if r := recover(); r != nil {
+			a.mu.Lock()
+			if a.flushPanic == nil {
+				a.flushPanic = r
+			}
+			// what could not be written is dropped, the response ends with the error
+			a.initialResponse, a.deferResponses = nil, nil
+			a.mu.Unlock()
+		}
+	}()
+	a.flush(w)
+}
+
 // Done flushes the remaining responses
 func (a *multipartResponseAggregator) Done(w http.ResponseWriter) {
 	a.done <- true
+	a.mu.Lock()
+	p := a.flushPanic
+	a.mu.Unlock()
+	if p != nil {
+		panic(p)
+	}
 	a.flush(w)
 }
 
